@@ -343,8 +343,36 @@ fn tcase_json(id: usize, c: &TCase) -> serde_json::Value {
            "impl_obs": c.obs.iter().map(|o| format!("{:?}", o)).collect::<Vec<_>>() })
 }
 
-fn table_random(rng: &mut Rng, count: usize) -> Vec<(Vec<u64>, Vec<(u64, u64)>, Vec<TOp>)> {
+/// Scripted sequences: FULL histories (W + 1 versions of one key: W in-window blocks on top of one older
+/// version), taken through the disk (commit + reopen) and rolled back to the deepest admissible block.
+fn table_scripted() -> Vec<(Vec<u64>, Vec<(u64, u64)>, Vec<TOp>)> {
+    let keys = vec![3u64, 256];
+    let ranges = vec![(0u64, u64::MAX), (1, 257)];
     let mut out = Vec::new();
+    // dense: a write in every block 1 ..= W + 2 with alternating values, commit, reopen, deepest rollback
+    for (reopen, back) in [(true, W), (false, W), (true, W - 1), (true, 1)] {
+        let mut ops = Vec::new();
+        for b in 1..=(W + 2) { ops.push(TOp::Set(b, 3, 1 + (b % 2))); if b % 3 == 0 { ops.push(TOp::Set(b, 256, 1 + (b % 3))); } }
+        ops.push(TOp::Commit(W + 3));
+        if reopen { ops.push(TOp::Reopen); }
+        ops.push(TOp::Reorg(W + 2 - back));
+        ops.push(TOp::Set(W + 3 - back, 3, 3));
+        out.push((keys.clone(), ranges.clone(), ops));
+    }
+    // an old value, a long pause, then a burst of W blocks; rollback to just before the burst
+    for reopen in [true, false] {
+        let mut ops = vec![TOp::Set(3, 3, 3), TOp::Commit(4)];
+        for b in 21..=(20 + W) { ops.push(TOp::Set(b, 3, 1 + (b % 2))); }
+        ops.push(TOp::Commit(21 + W));
+        if reopen { ops.push(TOp::Reopen); }
+        ops.push(TOp::Reorg(20));
+        out.push((keys.clone(), ranges.clone(), ops));
+    }
+    out
+}
+
+fn table_random(rng: &mut Rng, count: usize) -> Vec<(Vec<u64>, Vec<(u64, u64)>, Vec<TOp>)> {
+    let mut out = table_scripted();
     for i in 0..count {
         // boundary keys for range scans: 255/256 (byte order), u32/u64 edges
         let pool: Vec<u64> = vec![0, 1, 2, 3, 7, 255, 256, 257, 65535, 65536, 1 << 32, (1 << 32) + 1, u64::MAX - 1];
